@@ -659,6 +659,53 @@ fn variant_run(seed: u64, ot: bool, thorough: bool, threads: usize, rep: &mut Re
     if tail[..] != honest_msg[s.off()..] {
         rep.disagree.push(format!("harness adversary with an empty specification differs from the honest sender's message -- {}", s.describe()));
     }
+    // ---- re-encoding of a masked value.  The sender's input is chosen so that a_tilde[j][i] is a small scalar t (alpha_0 and
+    //      alpha_1 do not depend on the input, so a' = a + (t - a_tilde[j][i]) puts t there); in transit the field is then
+    //      overwritten with the OTHER 32-byte encoding of the same scalar, t + q.  The masked values were touched, the bytes
+    //      differ, theta is bound to the bytes: the receiver must abort.
+    let mut reenc_msgs: Vec<(String, Vec<u8>)> = vec![];
+    {
+        use k256::elliptic_curve::{bigint::{Encoding, U256}, Curve};
+        let off = s.off();
+        let j0 = (0..XI).find(|j| !bit(&beta, *j)).unwrap_or(0);
+        let j1 = (0..XI).find(|j| bit(&beta, *j)).unwrap_or(1);
+        for (n, (j, i)) in [(j0, 0usize), (j1, 1), (XI - 1, 0), (j1, 0)].into_iter().enumerate() {
+            let pos = off + j * 96 + i * 32;
+            let vj = reduce32(&honest_msg[pos..pos + 32]);
+            let t = Scalar::from(3u64 + n as u64);
+            let mut a2 = s.a();
+            a2[i] = a2[i] + t - vj;
+            let (tail, _) = adversary(&s.sid(), &ctx.v0, &ctx.v1, &a2, &s.eta_tape(), &[]);
+            let mut msg = honest_msg[..off].to_vec();
+            msg.extend_from_slice(&tail);
+            let tb: [u8; 32] = t.to_bytes().into();
+            if msg[pos..pos + 32] != tb {
+                rep.disagree.push(format!("harness: chosen input did not put the scalar {} into a_tilde[{j}][{i}] -- {}", 3 + n, s.describe()));
+                continue;
+            }
+            rep.n_eval += 2;
+            rep.n_nontrivial += 1;
+            match s.real_recv(&msg) {
+                Ok(d) if relation_holds(&a2, &s.b(), &c, &d) => {}
+                other => rep.oracle.push(format!("honest message for the input a' = {} (a_tilde[{j}][{i}] = {}) not accepted with correct shares: {} -- {}",
+                    scalars(&a2), 3 + n, real_recv_str(&other), s.describe())),
+            }
+            let enc = k256::Secp256k1::ORDER.wrapping_add(&U256::from(3u64 + n as u64)).to_be_bytes();
+            msg[pos..pos + 32].copy_from_slice(&enc);
+            let res = s.real_recv(&msg);
+            let what = format!("a_tilde[{j}][{i}] (beta_j = {}) = {} overwritten with the non-canonical encoding q + {} of the same scalar, sender input a' = {}",
+                bit(&beta, j) as u8, 3 + n, 3 + n, scalars(&a2));
+            match &res {
+                Ok(d) => rep.oracle.push(format!("masked value re-encoded in transit but the message was accepted (d={}): {what} -- {}", scalars(d), s.describe())),
+                Err(e) if e == "panic" => rep.oracle.push(format!("receiver panicked: {what} -- {}", s.describe())),
+                Err(e) => rep.kind(&format!("{vname}:reencoded-masked-value:{e}")),
+            }
+            log.push(format!("{vname} probe {what} -> {}", real_recv_str(&res)));
+            if n < 2 {
+                reenc_msgs.push((what, msg));
+            }
+        }
+    }
     let n_dev = if thorough { if ot { 600 } else { 1500 } } else { 48 };
     let specs = deviation_specs(&s, &mut r, n_dev);
     let mut adv_msgs: Vec<(usize, Vec<u8>)> = vec![];
@@ -716,6 +763,13 @@ fn variant_run(seed: u64, ot: bool, thorough: bool, threads: usize, rep: &mut Re
             if ensure(m, rep) {
                 let p = &probes_ref[i];
                 check(m, rep, &format!("{}: {}", p.kind, p.what), &p.msg);
+            }
+        }));
+    }
+    for (what, msg) in reenc_msgs {
+        jobs.push(Box::new(move |m, rep, _| {
+            if ensure(m, rep) {
+                check(m, rep, &format!("reencoded-masked-value: {what}"), &msg);
             }
         }));
     }
